@@ -45,7 +45,7 @@ def enumerate_schedules(plan_list, cfg="HGSched_enum.cfg", workers=4, procs=4, t
     return out, stats
 
 
-def run_schedule(job, schedule, k, cache=None, event_processors=None, error_handling="continue"):
+def run_schedule(job, schedule, k, cache=None, event_processors=None, error_handling="continue", pick=None):
     """Drive the real AsyncRunner along `schedule` (list of 'path#idx').  Returns (obs, controller)."""
     rt = build.Runtime(job["prog"])
     with warnings.catch_warnings():
@@ -61,7 +61,7 @@ def run_schedule(job, schedule, k, cache=None, event_processors=None, error_hand
     runner = AsyncRunner(cache=cache)
     with warnings.catch_warnings():
         warnings.simplefilter("ignore")
-        res, ctl = drive.run_controlled(lambda: runner.run(g, build.provided_dict(job), **kwargs), rt, schedule=schedule)
+        res, ctl = drive.run_controlled(lambda: runner.run(g, build.provided_dict(job), **kwargs), rt, schedule=schedule, pick=pick)
     if ctl.deadlock:
         return {"status": "deadlock", "values": {}, "err": {"path": IR.NONE, "kind": "deadlock"}, "calls": build._calls(rt),
                 "pause": {"path": IR.NONE, "key": IR.NONE, "value": IR.NONE}}, ctl
